@@ -35,9 +35,8 @@ from qucumber.observables import SWAP  # noqa: E402
 
 SWAP_FAULTS = ["conj-w2", "complement", "aliased-swap", "first-only"]
 INVARIANTS = ["TypeOK", "SwapIsPurity", "PurityFacts", "EstAlternatives", "Pairing", "PairingAlt",
-              "PairingFaultExposed", "SwapFaultsExposed", "SwapAlternativeNotExposed", "MC_Export"]
+              "PairingFaultExposed", "SwapFaultsExposed", "MC_Export"]
 EXPORT = ('MC_Export == /\\ (st = "ops" => PrintT(ToJson(SwapRecord(C.n))))\n'
-          '             /\\ (st = "faults" => PrintT(ToJson(SwapFaultsRecord)))\n'
           '             /\\ (st = "pairing" => PrintT(ToJson(PairingRecord)))')
 MMAX = 17
 
@@ -107,12 +106,17 @@ def bind_state(chk, S, tab, pairing, hist=None, counter=None):
                 ks = [k1, k2]
                 batch = torch.tensor([rows[k1], rows[k2]], dtype=torch.double)
                 before = batch.clone()
-                out = SWAP(A).apply(S.model, batch)
+                try:
+                    out = SWAP(A).apply(S.model, batch)
+                except Exception as ex:          # the library raised on a documented input
+                    chk.violation(key0 + ":raised", dict(det, form=fname, batch=[rows[k1], rows[k2]], raised=repr(ex)))
+                    bad = True
+                    break
                 chk.evaluations += 1
                 if counter is not None:
                     counter[fname] = counter.get(fname, 0) + 1
                 if not same_tensor(before, batch):
-                    chk.violation(key0 + ":batch-modified", dict(det, form=fname, before=before.tolist(), after=batch.tolist()))
+                    chk.violation(key0 + ":batch-modified", dict(det, form=fname, batch=before.tolist(), after=batch.tolist()))
                     bad = True
                     break
                 if not (torch.is_tensor(out) and tuple(out.shape) == (2,) and out.is_floating_point()):
@@ -124,14 +128,14 @@ def bind_state(chk, S, tab, pairing, hist=None, counter=None):
                     want, tol = est_exact(S, reg, a, b)
                     got = out[i].item()
                     code[a][b] = got
+                    if hist is not None and abs(want - 1) > 1e-6:
+                        hist.add((S.kind, "proper" if 0 < len(reg["sites"]) < n else "trivial"))
                     if not (abs(mpmath.mpf(got) - want) <= tol):
                         chk.violation(key0 + ":pair-value", dict(det, form=fname, batch=[rows[k1], rows[k2]], row=i,
                                                                  got=got, expected=mpmath.nstr(want, 17),
                                                                  tolerance=mpmath.nstr(tol, 3)))
                         bad = True
                         break
-                    if hist is not None and abs(want - 1) > 1e-6:
-                        hist.add((S.kind, "proper" if 0 < len(reg["sites"]) < n else "trivial"))
                 if bad:
                     break
             if bad:
@@ -219,10 +223,14 @@ def record_queries(chk, S, tab, pairing, rng, nbatch):
         reg = rng.choice(tab["regions"])
         fname, A = rng.choice(region_forms(reg["sites"], n))
         before = batch.clone()
-        with obs_lib.Queries(S.model) as q:
-            out = SWAP(A).apply(S.model, batch)
-        chk.traces += 1
         det = dict(S.describe(), region_sites_1based=reg["sites"], form=fname, batch=ks, distinct_rows=distinct)
+        try:
+            with obs_lib.Queries(S.model) as q:
+                out = SWAP(A).apply(S.model, batch)
+        except Exception as ex:
+            chk.violation("queries:%s:raised" % S.kind, dict(det, raised=repr(ex)))
+            continue
+        chk.traces += 1
         if not same_tensor(before, batch):
             chk.violation("queries:%s:batch-modified" % S.kind, det)
             batch = before.clone()
@@ -320,14 +328,14 @@ def run(tier, seed):
         chk.violation("spec:" + str(res.violation), dict(tlc=res.raw[-4000:]))
         return chk.finish()
     tabs = {e["n"]: e for e in res.exports if "regions" in e}
-    frec = [e for e in res.exports if "faults" in e]
+    frec = {e["fault"]: e["exposed"] for e in res.exports if "fault" in e}
     prec = [e for e in res.exports if "pairing" in e]
-    if sorted(tabs) != list(range(1, nvmax + 1)) or len(frec) != 1 or len(prec) != 1:
+    if sorted(tabs) != list(range(1, nvmax + 1)) or set(frec) != set(SWAP_FAULTS) | {"code", "rho-transposed"} or len(prec) != 1:
         raise common.MachineryError("swap tables / fault record / pairing record not exported")
     pairing = prec[0]["pairing"]
     for v in SWAP_FAULTS:
-        chk.control(frec[0]["faults"].get(v, 0) > 0, "seeded fault '%s' in the model of the estimator satisfied SwapIsPurity" % v)
-    chk.extra["seeded_faults_exposed_at"] = frec[0]["faults"]
+        chk.control(frec[v] > 0, "seeded fault '%s' in the model of the estimator satisfied SwapIsPurity" % v)
+    chk.extra["seeded_faults_exposed_at"] = frec
 
     pure, purif = obs_lib.lattice_exports(chk, rng, 10 if quick else 90, 8 if quick else 60, nvmax, seed)
     states = []
@@ -338,15 +346,11 @@ def run(tier, seed):
     usable = [S for S in states if S.representable()]
     chk.extra["unrepresentable"] = len(states) - len(usable)
     hist, forms = set(), {}
-    n_big = 0
+    n_big = {}
     for i, S in enumerate(usable):
-        if S.n == nvmax and not quick:
-            n_big += 1
-            if n_big > 36:                    # nv = 4: 2176 two-row batches per state
-                continue
-        if S.n == 3 and quick:
-            n_big += 1
-            if n_big > 6:
+        if S.n == nvmax:                      # nv = 4: 2176 two-row batches per state (nv = 3: 288)
+            n_big[S.kind] = n_big.get(S.kind, 0) + 1
+            if n_big[S.kind] > (2 if quick else 12):
                 continue
         bind_state(chk, S, tabs[S.n], pairing, hist, forms)
         if i % 9 == 0:
@@ -356,13 +360,16 @@ def run(tier, seed):
         raise common.MachineryError("exported swap tables and partial-trace structure disagree on an exact state")
     chk.extra["region_forms_used"] = forms
     chk.extra["pairs_with_nontrivial_weight"] = sorted("%s/%s" % x for x in hist)
-    for need in [("positive", "proper"), ("complex", "proper"), ("density", "proper"), ("density", "trivial")]:
-        if need not in hist:
-            raise common.MachineryError("no non-trivial pair value seen for %s/%s" % need)
-    if set(forms) != {"int", "list", "ndarray", "tensor"}:
-        raise common.MachineryError("not every region form was exercised")
+    if not chk.violations:               # anti-vacuity of a held verdict (comparisons stop at the first mismatch)
+        for need in [("positive", "proper"), ("complex", "proper"), ("density", "proper"), ("density", "trivial")]:
+            if need not in hist:
+                raise common.MachineryError("no non-trivial pair value seen for %s/%s" % need)
+        if set(forms) != {"int", "list", "ndarray", "tensor"}:
+            raise common.MachineryError("not every region form was exercised")
     for S in usable:
         record_queries(chk, S, tabs[S.n], pairing, rng, 4 if quick else 10)
+    if chk.violations:           # the negative controls presuppose an implementation that conforms
+        return chk.finish()
     controls(chk, tier, seed, usable, tabs, pairing, rng)
     chk.assumptions += [
         "regions are sets of distinct column indices (int for a singleton, list, integer ndarray, long tensor)",
@@ -374,3 +381,33 @@ def run(tier, seed):
         "responsibility (exact double sum here, no sampling)",
         "tolerances as in C08 (per importance ratio), float64 on CPU"]
     return chk.finish()
+
+
+def replay(path):
+    """./check C09 --replay <file>: rebuild the recorded state, apply SWAP(region) to the recorded two-row
+    batch and compare with the recorded exact expectation."""
+    import json
+    with open(path) as fh:
+        blob = json.load(fh)
+    d = blob["detail"]
+    if "point" not in d or "batch" not in d or not isinstance(d["batch"][0], list):
+        print("C09 replay: %s is not a recorded two-row call; run ./check C09" % blob["key"])
+        return 2
+    st = {"positive": lattice.positive_state, "complex": lattice.complex_state,
+          "density": lattice.density_state}[d["state"]](d["point"])
+    A = dict(region_forms(d["region_sites_1based"], d["point"]["nv"]))[d.get("form", "list")]
+    batch = torch.tensor(d["batch"], dtype=torch.double)
+    before = batch.clone()
+    out = SWAP(A).apply(st, batch)
+    print("SWAP(%r) on %s state, batch %s -> %s" % (A, d["state"], d["batch"], out.tolist()))
+    if not same_tensor(before, batch):
+        print("VIOLATION property=C09 replay=%s\n  the batch was modified: %s" % (path, batch.tolist()))
+        return 1
+    if "expected" in d and "row" in d:
+        got, want, tol = out[d["row"]].item(), mpmath.mpf(d["expected"]), mpmath.mpf(d.get("tolerance", "1e-9"))
+        print("row %d: got %r, exact %s" % (d["row"], got, d["expected"]))
+        if not abs(mpmath.mpf(got) - want) <= tol + mpmath.mpf(10) ** -15 * abs(want):
+            print("VIOLATION property=C09 replay=%s" % path)
+            return 1
+    print("C09 replay: agrees with the recorded expectation")
+    return 0
